@@ -45,7 +45,8 @@ From Coq Require Import ZArith QArith List Bool.
 From Knut Require Import Model.Imp.Revolut2Files Proofs.ImpProofsFiles.
 From Knut Require Import Model.Str Model.Dec Model.Date Model.Account Model.Ledger Model.Journal
      Model.ImpCommonA Model.ImpCommonB Model.Imp.Revolut2 Model.Imp.Revolut Model.Imp.Wise Model.Imp.Swissquote Model.Imp.Interactivebrokers
-     Spec.TableSpec Spec.ImpSpecA Spec.ImpSpecB Spec.ImpSpecIB Proofs.DecValue Proofs.PairProofs Proofs.ImpProofsB Proofs.ImpProofsIB Proofs.ImpRunB.
+     Spec.TableSpec Spec.ImpSpecA Spec.ImpSpecB Spec.ImpSpecIB Spec.ImpStmtB Proofs.DecValue Proofs.PairProofs Proofs.ImpProofsB Proofs.ImpProofsIB Proofs.ImpRunB
+     Proofs.ImpStdoutB.
 Import ListNotations.
 
 (* ---------------------------------------------------------------- bookings *)
@@ -500,4 +501,97 @@ Print Assumptions C13_interactivebrokers_loop.
 (* rounding loses what the row says: 0.1615 shares are booked as 0.16 *)
 Example C13_interactivebrokers_rounding_witness :
   ibs_num [48;46;49;54;49;53]%Z = Some (mkDec 1615 (-4)) /\ ibs_num2 [48;46;49;54;49;53]%Z = Some (mkDec 16 (-2)).
+Proof. vm_compute. split; reflexivity. Qed.
+
+(* ---------------------------------------------------------------- executable statement-level forms *)
+(* As C13_interactivebrokers_stdout for the other importers of the group: Spec/ImpStmtB.v defines, from
+   the row readings of Spec/ImpSpecB.v (X_wf_row, X_fact, X_legs, X_text), the realisation of bookings as
+   posting pairs and the shared printer -- not from the importer model -- the journal text
+   X_statement_output the property prescribes for the records of a well-formed statement (None for any
+   other list of records).  The command prints exactly that text.  ./check C13 evaluates the extracted
+   X_statement_output on the records of every generated well-formed statement and compares it with
+   the standard output of the binary (drv_c13b.ml, verdict `spec`). *)
+
+(* the relation of the _faithful theorems pins the transaction down: a transaction that books a row
+   (books_b: date, bookings, annotation) under the row's text IS the one the executable form
+   prescribes -- so the transactions of C13_<importer>_faithful / _end_to_end are those of
+   <importer>_statement_output *)
+Theorem C13b_books_determines : forall acct f ls tg text t,
+  books_b acct f ls tg t -> t_desc t = build_desc text -> DTxn t = booking_directive f text ls tg.
+Proof. exact books_b_determines. Qed.
+Print Assumptions C13b_books_determines.
+
+(* revolut2: the header record, then well-formed rows (r2_statement_wf); one transaction per
+   booking row in file order, then the assertions of the closing balances (r2s_closings: per day
+   and currency with a booking row the Balance of the last such row) ordered by day, then by the
+   name of the currency (r2s_balances) *)
+Theorem C13_revolut2_stdout : forall aflag fflag acct feeacct recs,
+  account_flag aflag = AAcc acct -> account_flag fflag = AAcc feeacct ->
+  r2_statement_wf recs = true ->
+  exists out, r2_statement_output acct feeacct recs = Some out /\
+    run_revolut2 aflag fflag (map CRec recs) = mkRun out SOk.
+Proof. exact revolut2_stdout. Qed.
+Print Assumptions C13_revolut2_stdout.
+
+(* the header and the row of C13_revolut2_row_wf: one transaction with a fee booking, one assertion *)
+Example C13_revolut2_statement_wf :
+  let row := [[67]; [67]; []; [50;48;50;48;45;48;55;45;48;49;32;49;48;58;48;48;58;48;48]; [97];
+              [45;49;54;46;57;53]; [49;46;48;48]; [67;72;70]; [67]; [55;55;57;46;54;53]]%Z in
+  r2_statement_wf [r2s_header; row] = true /\
+  length (r2s_directives [s_Assets; [82]%Z] [s_Expenses; [70]%Z] [row]) = 2%nat.
+Proof. vm_compute. split; reflexivity. Qed.
+
+(* revolut: a header of nine fields whose third field is "Paid Out (CUR)" (rvs_currency), then
+   well-formed rows; the transaction of each row, preceded by the assertion of the row's Balance
+   where the date changes (rvs_weave, from 1 January of year 1) *)
+Theorem C13_revolut_stdout : forall aflag acct recs,
+  account_flag aflag = AAcc acct -> rv_statement_wf recs = true ->
+  exists out, rv_statement_output acct recs = Some out /\ run_revolut aflag (map CRec recs) = mkRun out SOk.
+Proof. exact revolut_stdout. Qed.
+Print Assumptions C13_revolut_stdout.
+
+(* a header and the row of C13_revolut_row_wf: one assertion, one transaction with two bookings *)
+Example C13_revolut_statement_wf :
+  let header := [[67]; [82]; [80;97;105;100;32;79;117;116;32;40;69;85;82;41]; [80]; [69]; [69]; [66]; [69]; [67]]%Z in
+  let row := [[50;54;32;78;111;118;32;50;48;50;48]; [83;111;108;100;32;69;85;82;32;116;111;32;67;72;70];
+              [49;56;52;46;57;56]; []; [67;72;70;32;32;49;57;57;46;57;53]; []; [49;48;48;46;48;48]; [70;88]; [71]]%Z in
+  rv_statement_wf [header; row] = true /\ rvs_currency header = Some [69;85;82]%Z /\
+  length (rvs_weave [s_Assets; [82]%Z] [69;85;82]%Z rvs_zero_day [row]) = 2%nat.
+Proof. vm_compute. repeat split. Qed.
+
+(* com.wise: the header record, then well-formed rows; one transaction per entry of each row
+   (ws_entries; repaired = true is the code since 0ec20cd) *)
+Theorem C13_wise_stdout : forall repaired aflag fflag tflag acct feeacct trading recs,
+  account_flag aflag = AAcc acct -> account_flag fflag = AAcc feeacct -> account_flag tflag = AAcc trading ->
+  ws_statement_wf recs = true ->
+  exists out, ws_statement_output repaired acct feeacct trading recs = Some out /\
+    run_wise repaired aflag fflag tflag (map CRec recs) = mkRun out SOk.
+Proof. exact wise_stdout. Qed.
+Print Assumptions C13_wise_stdout.
+
+(* the header and the converted incoming payment w_incoming: a conversion and a receipt *)
+Example C13_wise_statement_wf :
+  ws_statement_wf [wss_header; w_incoming] = true /\
+  length (ws_directives true w_acct w_fee w_trading [w_incoming]) = 2%nat.
+Proof. vm_compute. split; reflexivity. Qed.
+
+(* ch.swissquote: a header record, then a well-formed sequence of rows (sqs_wf: exchange rows in
+   complete pairs); one transaction per entry (sqs_entries) *)
+Theorem C13_swissquote_stdout :
+  forall aflag dflag iflag wflag fflag tflag acct dividend interest tax fee trading recs,
+  account_flag aflag = AAcc acct -> account_flag dflag = AAcc dividend -> account_flag iflag = AAcc interest ->
+  account_flag wflag = AAcc tax -> account_flag fflag = AAcc fee -> account_flag tflag = AAcc trading ->
+  sqs_statement_wf recs = true ->
+  exists out, sqs_statement_output acct dividend interest tax fee trading recs = Some out /\
+    run_swissquote aflag dflag iflag wflag fflag tflag (map CRec recs) = mkRun out SOk.
+Proof. exact swissquote_stdout. Qed.
+Print Assumptions C13_swissquote_stdout.
+
+(* a header and the statement of C13_swissquote_statement_wf: a transfer and ONE exchange transaction *)
+Example C13_swissquote_statement_output_wf :
+  let a := [s_Assets; [83]%Z] in let x := [s_Expenses; [88]%Z] in
+  let rows := [w_sq_row [69;105;110;122;97;104;108;117;110;103]%Z [49;48;48]%Z;
+               w_sq_row [70;111;114;101;120;45;71;117;116;115;99;104;114;105;102;116]%Z [56;51;48]%Z;
+               w_sq_row [70;111;114;101;120;45;66;101;108;97;115;116;117;110;103]%Z [45;57;49;56]%Z] in
+  sqs_statement_wf ([] :: rows) = true /\ length (sqs_directives a x x x x x rows) = 2%nat.
 Proof. vm_compute. split; reflexivity. Qed.
